@@ -86,6 +86,8 @@ func (m *ctxModel) importHlp() bool {
 func (m *ctxModel) write(loc string, v int) {
 	val := fmt.Sprintf("w%d%s", v, m.tag)
 	switch loc {
+	case "exc.eof":
+		m.vals[loc] = q(fmt.Sprintf("e%d%s.py", v, m.tag))
 	case "exc.syntax":
 		m.vals[loc] = fmt.Sprintf("(\"f%d%s.py\",%d)", v, m.tag, badLines[v%len(badLines)])
 	case "const.bytes":
@@ -221,6 +223,11 @@ func (m *ctxModel) read(loc string) string {
 			return v
 		}
 		return "(None,None)"
+	case "exc.eof":
+		if v, ok := m.vals[loc]; ok {
+			return v
+		}
+		return "None"
 	case "modimpl.conf":
 		note := "none"
 		if v, ok := m.vals[loc]; ok {
